@@ -252,6 +252,14 @@ impl Prop for P {
                 if let Err(msg) = crate::wrap::search_wrappers(&map, &set, || e.build(), calls, &got) {
                     x = msg;
                 }
+                // every automaton of the expression used through a borrow (impl Automaton for &T)
+                let mut rb = f.search(e.build_ref());
+                for (k, b) in calls {
+                    rb = match k { 0 => rb.ge(b), 1 => rb.gt(b), 2 => rb.le(b), _ => rb.lt(b) };
+                }
+                if rb.into_stream().into_byte_vec() != got {
+                    x = format!("search with borrowed automata (&T) differs from the search with owned ones for {}", fmt_calls(calls));
+                }
                 nplain += 1;
                 res.push(fmt_kvs(&got));
             }
